@@ -363,7 +363,15 @@ func workC18(req *Request, set []byte) {
 						unres = "unresolved"
 					}
 				}
-				o.Sub = []string{dup, unres}
+				own := "own-unique"
+				seenOwn := map[string]bool{}
+				for _, p := range obj.Properties {
+					if seenOwn[p.JSONName] {
+						own = "own-dup"
+					}
+					seenOwn[p.JSONName] = true
+				}
+				o.Sub = []string{dup, unres, own}
 			})
 		}
 		step(req, "newroot|"+full, func(o *Obs) {
